@@ -7,7 +7,7 @@ from vlib import *
 
 def bins_for(tier):
     tag = tier[0]
-    return ["sched_%s%02d" % (tag, i) for i in range(16)]
+    return ["sched_%s%02d" % (tag, i) for i in range(16 if tier == "quick" else 96)]
 
 def ensure_sources(tier):
     tag = tier[0]
